@@ -5,6 +5,7 @@ import PandoraModel.Properties.C02Census
 import PandoraModel.Properties.C02KernelsMc
 import PandoraModel.Properties.C02KernelsMcCost
 import PandoraModel.Properties.C02KernelsMcArr
+import PandoraModel.Properties.C02KernelsMasked
 #print axioms Pandora.C02.popcount_source_eq_model
 #print axioms Pandora.C02.typeMeasure_source_eq_model
 #print axioms Pandora.C02.cmax_source_eq_model
@@ -110,3 +111,17 @@ import PandoraModel.Properties.C02KernelsMcArr
 #print axioms Pandora.C02KernelsMcArr.stdRadicandPx_eq_model
 #print axioms Pandora.C02KernelsMcArr.shiftedCols_eq
 #print axioms Pandora.C02KernelsMcArr.shift_eq_model
+
+-- ==== block of ext-c04 (translator/gen_kernels_cv_masked.py): the per-cell NaN decisions of cv_masked / masks_dilatation
+#print axioms Pandora.C02KernelsMasked.gridOutside_iff
+#print axioms Pandora.C02KernelsMasked.gridOutside_eq
+#print axioms Pandora.C02KernelsMasked.intervalMask_isNan
+#print axioms Pandora.C02KernelsMasked.costVolume_nan_of_gridOutside
+#print axioms Pandora.C02KernelsMasked.intervalMask_of_not_gridOutside
+#print axioms Pandora.C02KernelsMasked.iMaskRight_eq
+#print axioms Pandora.C02KernelsMasked.cvMaskedStep_isNan
+#print axioms Pandora.C02KernelsMasked.cvMaskedStep_other
+#print axioms Pandora.C02KernelsMasked.leftDilInput_eq
+#print axioms Pandora.C02KernelsMasked.rightDilInput_eq
+#print axioms Pandora.C02KernelsMasked.leftMaskNan_eq
+#print axioms Pandora.C02KernelsMasked.rightMaskNan_eq
